@@ -13,7 +13,7 @@ if ! git -C /repo apply $D/patch.diff 2>/dev/null; then
 fi
 cp evidence/$PID.json /tmp/evidence.keep.$PID.json 2>/dev/null
 out=$(timeout 1800 ./verify check $PID --tier $TIER 2>&1); rc=$?
-[ -f /tmp/evidence.keep.$PID.json ] && mv /tmp/evidence.keep.$PID.json evidence/$PID.json  # evidence is only ever kept from clean-tree runs
+if [ -f /tmp/evidence.keep.$PID.json ]; then mv /tmp/evidence.keep.$PID.json evidence/$PID.json; else rm -f evidence/$PID.json; fi  # evidence is only ever kept from clean-tree runs
 git -C /repo reset -q --hard HEAD
 echo "$out" | tail -6; echo "check rc=$rc"
 python3 - "$ID" "$rc" "$TIER" "$(echo "$out" | grep -E "VIOLATION|tier=" | head -4)" <<'PY'
